@@ -16,6 +16,10 @@ def rounds(ctx):
         dict(name='meta_ns_d3', consts=speca.constants(MaxDepth=3, MaxId=2, MaxCount=2, MaxDeliver=2, Clients={'w1'}, Params={'p1'}, Meas={'m1'},
                                                       Cells={'c1', 'c2', 'c3', 'c4'}, Vals={'v1', ''}, AlgoMeta=True, Kinds=MK),
              expect=EXPECT[:2], backends={'ram': 1.0, 'sqlmem': 0.5}, relevant={'UpdateMetadata', 'SuggestTrials'}),
+        # string and protobuf values overwriting each other, incl. a DEFAULT-valued proto (empty payload)
+        dict(name='meta_proto_d4', consts=speca.constants(MaxDepth=4, MaxId=1, MaxCount=1, MaxDeliver=1, Clients={'w1'}, Params={'p1'}, Meas={'m1'},
+                                                         Cells={'c1'}, Vals={'v1', 'pa', 'pz'}, AlgoMeta=True, Kinds={'CreateStudy', 'SuggestTrials', 'UpdateMetadata'}),
+             expect=EXPECT[:2], backends={'ram': 1.0, 'sqlmem': 0.5}, relevant={'UpdateMetadata', 'SuggestTrials'}),
     ]
   return [
       dict(name='meta_d5', consts=speca.constants(MaxDepth=5, MaxId=2, MaxCount=1, MaxDeliver=1, Clients={'w1'}, Params={'p1'}, Meas={'m1'},
@@ -34,7 +38,7 @@ def walks(ctx):
   conf = {'Studies': ['s1', 's2'], 'Clients': ['w1', 'w2'], 'MaxId': 8, 'Cells': ['c1', 'c2', 'c3', 'c4'], 'Recycle': 'never'}
   kinds = ['UpdateMetadata'] * 6 + ['SuggestTrials'] * 3 + ['CompleteTrial', 'CreateTrial', 'DeleteTrial', 'SetStudyState', 'CreateStudy', 'DeleteStudy']
   n = 480 if ctx.thorough else 120
-  return [dict(name='metadata_traffic', conf=conf, n=n, length=40, kinds=kinds, opts={'AlgoMeta': True, 'Vals': ['v1', 'v2', '']},
+  return [dict(name='metadata_traffic', conf=conf, n=n, length=40, kinds=kinds, opts={'AlgoMeta': True, 'Vals': ['v1', 'v2', '', 'pa', 'pz']},
                backends=['ram', 'sqlmem'])]
 
 
